@@ -33,6 +33,7 @@ FIXES = {  # subject prefix -> properties whose check must fire when the fix is 
     "fix: config.set rolls": ["C17"],
     "fix: add_callbacks": ["C05"],
     "fix: order()": ["C06"],
+    "fix: read_text without": ["C50"],
 }
 
 
